@@ -31,8 +31,7 @@ func newFmEnv(height int64) *fmEnv {
 	e.bank.modules[fmFeeCollector] = nil
 	e.bank.modules[fmCommunity] = nil
 	e.creator, e.a, e.b = vAddr(1), vAddr(2), vAddr(3)
-	e.k = Keeper{cdc: e.cdc, storeKey: e.key, bk: e.bank, ak: e.acc, feeCollectorName: fmFeeCollector,
-		communityPoolName: fmCommunity, authority: vAddr(9).String()}
+	e.k = NewKeeper(e.cdc, e.key, e.bank, e.acc, nil, nil, nil, fmFeeCollector, fmCommunity, vAddr(9).String()) // the app's own constructor
 	if err := e.k.SetParams(e.ctx, types.DefaultParams()); err != nil {
 		verifFail("default params rejected")
 	}
